@@ -75,7 +75,7 @@ EXTRA = {
  "C17": "; dispatch shape; engine contracts (reopen passes nuke, Create wipes, single-effect methods, no engine locks, Close only at shutdown)",
  "C18": "; no value-receiver field assignment in the chunk builder; read and write-back of the row RPCs under one hold; every table.rows access under the lock; no stale GC write-back; store only on success; engines take no locks; rows closed only at shutdown; sent buffers not recycled; the scan callback passes a row over only because of the row itself",
  "C19": "; Run cannot return on the acquired edge without the deferred unlock; decrement and eviction in one hold",
- "C20": "; Content-Length agrees with every body write; every table is built around a non-nil family map; guarded-map check-then-act, nested object locks, use after ownership transfer, carried-over scratch values, engine locks / Close, in-place record updates; a batch answers every parsed part (dispatch, part creation and response write on every path of an iteration, a recorder per part, lists in lockstep, closing boundary); no mutex is acquired again while it is held, through calls, interface dispatch or callbacks; elements of JSON-decoded pointer lists are nil-checked",
+ "C20": "; Content-Length agrees with every body write; every table is built around a non-nil family map; guarded-map check-then-act, nested object locks, use after ownership transfer, carried-over scratch values, engine locks / Close, in-place record updates; a batch answers every parsed part (dispatch, part creation and response write on every path of an iteration, a recorder per part, lists in lockstep, closing boundary); no mutex is acquired again while it is held, through calls, interface dispatch or callbacks; elements of JSON-decoded pointer lists are nil-checked; no response is streamed to the client while a table or registry mutex is held; a missing table is answered NotFound and a store read that reports not-found 404",
 }
 checks=[]
 for p in props:
@@ -110,7 +110,7 @@ json.dump(m,open('/verif/MANIFEST.json','w'),indent=1)
 FIX_PROPS={
  '659fa0e':'C17','d9b4edd':'C06','8e362d8':'C14','1a3ec83':'C05','d074582':'C05','4dbe7f4':'C03','ff68d64':'C16','739e5da':'C20','fbd49ff':'C20',
  'b6aac37':'C16','7524623':'C08','743ce43':'C15','d247afc':'C20','2f0bb4d':'C15','53bf577':'C20','c70c12b':'C07','3c0b511':'C10','9016315':'C07',
- '4ba9f80':'C11','2ba22ea':'C20','e54c65e':'C02','eced17a':'C11','b877043':'C07','7c7d223':'C15'}
+ '4ba9f80':'C11','2ba22ea':'C20','e54c65e':'C02','eced17a':'C11','b877043':'C07','7c7d223':'C15','0b0e65d':'C20','1035f39':'C20'}
 log=subprocess.run(['git','-C','/repo','log','--format=%h %s','1ff383a..HEAD'],capture_output=True,text=True).stdout.strip().splitlines()
 k=json.load(open('/verif/known_findings.json'))
 k['fixed']=[]
